@@ -33,7 +33,7 @@ m = {
         "guard": "cfg(folo_verif)",
         "enable": "RUSTFLAGS='--cfg folo_verif' (set by harness/.cargo/config.toml and by ./check); harness crates depend on /repo/packages/* by relative path so every check rebuilds from /repo's working tree",
         "baseline_off_cmd": "cd /repo && cargo nextest run --workspace --no-fail-fast --test-threads 8 --offline",
-        "source_commits": HOOK_COMMITS,
+        "source_commits": ["%s %s" % (h["commit"], h["purpose"]) for h in HOOK_COMMITS],
         "add_only": True,
     },
     "engines": [
